@@ -222,7 +222,7 @@ def run(chk: framework.Check):
 
 
 def replay(case):
-    if case.get("ext") == "derived":
+    if case.get("stream") == "derived":
         return derived_replay(case)
     drv = lean.Driver()
     cc = ConvCfg.from_json(case["cfg"])
